@@ -14,6 +14,8 @@ def run(rep):
     from . import syntactic
     syntactic.no_direct_cell_writes(rep)
     syntactic.template_discipline(rep)
+    from . import control
+    control.text_deductive(rep)
     syntactic.caught_exceptions_do_not_escape(rep)
     q = rep.tier == 'quick'
     if os.path.exists(os.path.join(fw.VERIF, 'standin', 's_c03.py')):
